@@ -89,7 +89,9 @@ void check_tree(const PIP_Problem& pip, const Prob& pr, unsigned upto, const std
   { // a fact for the classification of findings: is the problem feasible for some parameter assignment with a non-zero parameter?
     std::vector<expr> y; for (unsigned j = 0; j < pr.nv; ++j) y.push_back(symrt::fresh_int("fy"));
     expr pos = bval(false); for (auto& e : p) pos = pos || e >= ival(1);
-    symrt::fact("feasible_with_positive_parameter", symrt::possible(ctx && pos && pr.feasible(y, p, upto)) ? "1" : "0"); }
+    symrt::fact("feasible_with_positive_parameter", symrt::possible(ctx && pos && pr.feasible(y, p, upto)) ? "1" : "0");
+    expr allpos = bval(true); for (auto& e : p) allpos = allpos && e >= ival(1);
+    symrt::fact("feasible_with_all_parameters_positive", symrt::possible(ctx && allpos && pr.feasible(y, p, upto)) ? "1" : "0"); }
   long leaves = 0;
   walk(root, pr, upto, p, std::vector<expr>(), ctx, tag, 0, leaves);
   symrt::note(S("leaves=", leaves));
